@@ -424,7 +424,7 @@ def c05_3(ctx: Ctx):
         g for g, c in lin.all_calls() if src(c.func) == "self.apply"
     ]
     ctx.check(
-        bool(applies) and all(g.guard == TRUE for g in applies),
+        bool(applies) and all(g.top for g in applies),
         ex,
         ex.node,
         "__exit__ calls self.apply() unconditionally",
